@@ -22,5 +22,19 @@ pos("ucmp-depends-on-prec","decimal.go","	switch {\n	case x.exp < y.exp:\n		retu
 pos("exported-mantissa-getter","decimal.go","// IsInf reports whether x is +Inf or -Inf.\nfunc (x *Decimal) IsInf() bool {","// Mant returns the mantissa.\nfunc (x *Decimal) Mant() []Word { return x.mant }\n\n// IsInf reports whether x is +Inf or -Inf.\nfunc (x *Decimal) IsInf() bool {","FX-OWN","(*Decimal).Mant")
 pos("threshold-written-at-runtime","dec.go","	// determine if z can be reused\n	if alias(z, x) || alias(z, y) {","	decKaratsubaThreshold = 40\n	// determine if z can be reused\n	if alias(z, x) || alias(z, y) {","FX-GLOBAL","var decKaratsubaThreshold")
 pos("uadd-stores-operand-mantissa","decimal.go","	default:\n		// ex == ey, no shift needed\n		z.mant = z.mant.add(x.mant, y.mant)\n	case ex > ey:\n		if same(z.mant, y.mant) {\n			t := dec(nil).shl(x.mant, uint(ex-ey))\n			z.mant = z.mant.add(t, y.mant)","	default:\n		// ex == ey, no shift needed\n		z.mant = x.mant.add(x.mant, y.mant)\n	case ex > ey:\n		if same(z.mant, y.mant) {\n			t := dec(nil).shl(x.mant, uint(ex-ey))\n			z.mant = z.mant.add(t, y.mant)","FX-OWN","(*Decimal).uadd",note="x's buffer used as destination: x is overwritten and shared")
+
+# --- FX-STICKY / PREC0
+pos("revert-F7-sqrt-mode-sticky","decimal_sqrt.go","	prec, mode := z.prec, z.mode\n	b := x.MantExp(z)\n	z.prec, z.mode = prec, mode","	prec := z.prec\n	b := x.MantExp(z)\n	z.prec = prec","FX-STICKY","(*Decimal).Sqrt/z.mode",quick=True,note="F7")
+pos("revert-F8-setint-sticky","decimal.go","		z.form = zero\n		if z.prec == 0 {\n			z.prec = DefaultDecimalPrec\n		}\n		return z","		z.form = zero\n		z.prec = DefaultDecimalPrec\n		return z","FX-STICKY","(*Decimal).SetInt/z.prec",note="F8")
+pos("revert-F6-setbitsexp-prec0","decimal.go","	if z.prec == 0 {\n		// as for SetInt: enough precision for the whole mantissa\n		digits := uint64(len(z.mant)) * _DW\n		if digits > MaxPrec {\n			digits = MaxPrec\n		}\n		z.prec = umax32(uint32(digits), DefaultDecimalPrec)\n	}\n","","PREC0","(*Decimal).SetBitsExp",quick=True,note="F6")
+pos("sqrt-prec-not-restored-sticky","decimal_sqrt.go","	z.prec, z.mode = prec, mode","	_, z.mode = prec, mode","FX-STICKY","(*Decimal).Sqrt/z.prec")
+pos("fma-prec-not-restored-sticky","decimal.go","		// restore precision without rounding\n		z0.prec = prec\n","		_ = prec\n","FX-STICKY","(*Decimal).FMA/z.prec")
+pos("setfloat-prec-not-decremented","decimal.go","			z = z.Mul(z, t.pow2(uint64(exp2)))\n		}\n		z.prec--\n	}\n	z.round(0)\n	return z\n}\n\n// SetFloat64","			z = z.Mul(z, t.pow2(uint64(exp2)))\n		}\n	}\n	z.round(0)\n	return z\n}\n\n// SetFloat64","FX-STICKY","(*Decimal).SetFloat/z.prec")
+pos("mul-without-prologue","decimal.go","	if z.prec == 0 {\n		z.prec = umax32(x.prec, y.prec)\n	}\n\n	z.neg = x.neg != y.neg\n\n	if x.form == finite && y.form == finite {\n		// x * y (common case)\n		z.umul(x, y)","	z.neg = x.neg != y.neg\n\n	if x.form == finite && y.form == finite {\n		// x * y (common case)\n		z.umul(x, y)","PREC0","(*Decimal).Mul")
+pos("add-copies-operand-mode","decimal.go","		yneg := y.neg\n\n		z.neg = x.neg\n		if x.neg == yneg {\n			// x + y == x + y","		yneg := y.neg\n		z.mode = x.mode\n\n		z.neg = x.neg\n		if x.neg == yneg {\n			// x + y == x + y","FX-STICKY","(*Decimal).Add/z.mode")
+pos("set-always-takes-operand-prec","decimal.go","		if z.prec == 0 {\n			z.prec = x.prec\n		} else if z.prec < x.prec {\n			z.round(0)\n		}","		if z.prec != x.prec {\n			z.prec = x.prec\n		}","FX-STICKY","(*Decimal).Set/z.prec")
+pos("setbits64-zero-branch-before-prologue","decimal.go","func (z *Decimal) setBits64(neg bool, x uint64, exp int64) *Decimal {\n	if z.prec == 0 {\n		z.prec = DefaultDecimalPrec\n	}\n	z.acc = Exact\n	z.neg = neg\n	if x == 0 {\n		z.form = zero\n		return z\n	}","func (z *Decimal) setBits64(neg bool, x uint64, exp int64) *Decimal {\n	z.acc = Exact\n	z.neg = neg\n	if x == 0 {\n		z.form = zero\n		return z\n	}\n	if z.prec == 0 {\n		z.prec = DefaultDecimalPrec\n	}","FX-STICKY(d)","setBits64",note="a zero argument would leave precision 0")
+neg("neg-sticky-neg-rewrite","decimal.go","func (z *Decimal) Neg(x *Decimal) *Decimal {\n	z.Set(x)\n	z.neg = !z.neg","func (z *Decimal) Neg(x *Decimal) *Decimal {\n	xneg := x.neg\n	z.Set(x)\n	z.neg = !xneg",["FX-STICKY","PREC0","FX-IMMUT","FX-OWN"],quick=True)
+neg("neg-sticky-fma-scratch-mode","decimal.go","		z0.mode = z.mode\n","",["FX-STICKY","PREC0"],quick=True)
 json.dump(C,open("fx.json","w"),indent=1,ensure_ascii=False)
 print(len(C),"controls")
